@@ -13,8 +13,10 @@
      kind    = ("legacy") | ("compile") | ("partial") | ("skeleton" id) | ("split_compile" id)
              | ("type" sig off) | ("split_type" sig off) | ("types4" sig off)
      unit    = ((le is64 asz8 ver) kind abbrev_off atable die)
-     world   = (le (unit ...) (unit ...) #abbrev #str #line_str #str_offsets #addr #loclists #rnglists)
-               -- .debug_info units, .debug_types units, the other sections *)
+     world   = (le (unit ...) (unit ...) #abbrev #str #line_str #str_offsets #addr #loclists #rnglists [types_absent])
+               -- .debug_info units, .debug_types units, the other sections; the optional last element (read by the
+               harness only) says that the file has no .debug_types section at all, which the model represents as
+               an empty section (DWARFInfo guards every use with `debug_types_sec is None`) *)
 From Coq Require Import String.
 From PV Require Import Base.Outcome Base.Prim Spec.C04Desc Spec.C04Spec Spec.C04Sem Gen.C04Forms Model.C04Model.
 From Coq Require Import ZArith List Bool.
@@ -271,6 +273,20 @@ Definition g_sections (s : sx) : dsections :=
   mkdsections (gbool (nthx 0 l)) (gB (nthx 1 l)) (gB (nthx 2 l)) (gB (nthx 3 l)) (gB (nthx 4 l)) (gB (nthx 5 l))
               (gB (nthx 6 l)) (gB (nthx 7 l)) (gB (nthx 8 l)) (gB (nthx 9 l)).
 
+(* ---------------------------------------------------------------- DWARFInfo.get_DIE_by_sig8(sig) queried directly *)
+(* spec: the entry a type-signature reference with this signature designates; model: the ref_sig8 branch of
+   die_from_attribute = dwarfinfo.get_DIE_by_sig8 (the referring entry and its unit play no role there) *)
+Definition sig8_report (w : world) (sig : Z) : sx :=
+  let ps := w_placed w in
+  let dummyU := mkuctx (w_le w) false 4 4 0 0 0 None [] in
+  let a := mkxattr (EName "DW_AT_type") (EName "DW_FORM_ref_sig8") (RInt sig) 0 0 in
+  SL [match ps with
+      | p :: _ => sx_target (ref_target nm_tag nm_at nm_form ps p FORM_ref_sig8 (RInt sig))
+      | [] => sx_none
+      end;
+      sx_res (fun '(w', uoff, t) => SL [sx_where w'; SI uoff; SI (x_off t); SI (x_size t); SI (x_code t)])
+             (die_from_attribute (w_sections w) InInfo (mkmunit dummyU [] []) a)].
+
 (* ---------------------------------------------------------------- layout (for the generator: where entries land) *)
 Definition layout_unit (u : unit) (base : Z) : sx :=
   let c := u_cfg u in
@@ -294,6 +310,7 @@ Definition dispatch (req : sx) : sx :=
   else if String.eqb op "spec" then spec_report (g_world a1)
   else if String.eqb op "model" then model_report (g_sections a1)
   else if String.eqb op "model_of_world" then model_report (w_sections (g_world a1))
+  else if String.eqb op "sig8" then sig8_report (g_world a1) (gI a2)
   else if String.eqb op "std_class" then
     match std_form_class (g_cfg a1) (gI a2) with
     | Some k => SL [SS "some"; SI (match k with
